@@ -94,6 +94,59 @@ def fan_out(data):
     return max([W(x, 0) for x in incoming] or [0])
 
 
+def batch(binp, op, items, per_item_timeout, chunk, grace=4, jobs=16):
+    """Same protocol as vlib.Ctx.rvh_batch (idx\\tpayload lines in, idx\\tresult lines out, a dead or hanging worker is
+    restarted after the offending item), with a short grace period so that a hang costs per_item_timeout * chunk + grace."""
+    import concurrent.futures as cf
+    import subprocess
+    n = len(items)
+    results = [None] * n
+    chunks = [list(range(i, min(n, i + chunk))) for i in range(0, n, chunk)]
+    env = dict(os.environ)
+    env['VERIF_REPO'] = os.path.realpath(vlib.REPO)
+
+    def work(idxs):
+        pos = 0
+        while pos < len(idxs):
+            cur = idxs[pos:]
+            inp = "".join("%d\t%s\n" % (i, items[i]) for i in cur)
+            p = subprocess.Popen([binp, op], cwd=vlib.TESTS_DIR, stdin=subprocess.PIPE, stdout=subprocess.PIPE,
+                                 stderr=subprocess.PIPE, env=env)
+            try:
+                out, err = p.communicate(inp.encode(), timeout=per_item_timeout * len(cur) + grace)
+                rc, kind = p.returncode, 'exit%d' % p.returncode
+            except subprocess.TimeoutExpired:
+                p.kill()
+                out, err = p.communicate()
+                rc, kind = -9, 'timeout'
+            got = set()
+            for line in out.decode('utf-8', 'replace').splitlines():
+                k, sep, v = line.partition('\t')
+                if sep and k.isdigit() and int(k) in cur:
+                    results[int(k)] = v
+                    got.add(int(k))
+            if rc == 0 and len(got) == len(cur):
+                return
+            missing = [i for i in cur if results[i] is None]
+            if not missing:
+                return
+            bad = missing[0]
+            if rc == 0:
+                results[bad] = json.dumps({'crash': 'no-output'})
+            else:
+                if rc < 0 and kind != 'timeout':
+                    kind = 'signal%d' % (-rc)
+                tail = err.decode('utf-8', 'replace').strip().splitlines()[-3:]
+                results[bad] = json.dumps({'crash': kind, 'stderr': " | ".join(tail)[-400:]})
+            pos = idxs.index(bad) + 1
+            for i in idxs[pos:]:
+                results[i] = None
+
+    with cf.ThreadPoolExecutor(max_workers=jobs) as ex:
+        list(ex.map(work, chunks))
+    return results
+
+
 def fan_out_label_ok(label):
     """debug profile: skip the fan-out bombs that take minutes with debug assertions on"""
     m = re.search(r"fan-out (\d+)\^(\d+)", label)
@@ -271,6 +324,9 @@ def run(ctx):
     ngram = 600 if quick else 6000
     for i in range(ngram):
         add("grammar %d" % i, 'grammar', G.grammar_doc(rng, els, ats, 10 + rng.below(60)).encode())
+    ntext = 1500 if quick else 15000
+    for i in range(ntext):
+        add("text structure %d" % i, 'text', G.text_doc(rng).encode())
     for label, d in G.nesting_docs():
         add(label, 'nesting', d.encode())
     for label, d in G.bomb_docs():
@@ -385,7 +441,7 @@ def run(ctx):
         else:
             sub = jobs
         items = ["%s\t%s" % (o, inputs[i][2]) for i, o in sub]
-        outs = ctx.rvh_batch(bins[prof], 'c01-parse', items, per_item_timeout=2 if prof == 'release' else 4, chunk=8)
+        outs = batch(bins[prof], 'c01-parse', items, per_item_timeout=2 if prof == 'release' else 4, chunk=8)
         ctx.log("%s: %d light jobs done" % (prof, len(sub)))
         for (i, o), res_ in zip(sub, outs):
             judge(prof, i, o, res_)
@@ -394,7 +450,7 @@ def run(ctx):
         # heavy inputs: one process each so that a hang costs one time limit only
         hsub = hjobs if prof == 'release' else [j for j in hjobs if fan_out_label_ok(inputs[j[0]][0])]
         hitems = ["%s\t%s" % (o, inputs[i][2]) for i, o in hsub]
-        houts = ctx.rvh_batch(bins[prof], 'c01-parse', hitems, per_item_timeout=20 if prof == 'release' else 45, chunk=1)
+        houts = batch(bins[prof], 'c01-parse', hitems, per_item_timeout=(18 if prof == 'release' else 30) if quick else 45, chunk=1, grace=2)
         ctx.log("%s: %d heavy jobs done" % (prof, len(hsub)))
         for (i, o), res_ in zip(hsub, houts):
             judge(prof, i, o, res_)
